@@ -412,7 +412,47 @@ fn read_udpd(ctx: &mut Ctx, u: &UdpDatagramView) {
         black_box(u.to_boxed().as_slice_boxed().len());
     });
 }
+/// what receivers do with the quoted (offending) packet of an SCMP error: parse it as a SCION packet and look
+/// at its header and upper-layer header
+fn read_quote(ctx: &mut Ctx, q: &[u8]) {
+    if let Ok((inner, _)) = ScionRawPacketView::try_from_slice(q) {
+        ctx.inside("scmp.quote.as_slice", inner.as_slice());
+        ctx.inside("scmp.quote.payload", inner.payload());
+        let h = inner.header();
+        black_box((h.next_header(), h.payload_len(), h.header_len(), h.path_type(), h.src_ia(), h.dst_ia()));
+        let _ = black_box(h.src_host_addr());
+        let _ = black_box(h.dst_host_addr());
+        black_box(format!("{:?}", inner));
+        let _ = black_box(inner.src_scion_addr());
+        if let Ok(u) = inner.try_as_udp() {
+            black_box((u.udp().src_port(), u.udp().dst_port(), u.udp().length()));
+            let _ = black_box(u.src_socket_addr());
+            let _ = black_box(u.dst_socket_addr());
+            black_box(format!("{:?}", u));
+        }
+        if let Ok(sv) = inner.try_as_scmp() {
+            black_box((sv.scmp().message_type(), sv.scmp().dst_port()));
+            black_box(format!("{:?}", sv));
+        }
+        if let Ok(cl) = inner.try_classify() {
+            black_box((cl.dst_port(), cl.dst_socket_addr()));
+        }
+        let _ = black_box(ScionRawPacket::try_from_view(inner).map(|p| p.try_classify().map(|c| (c.dst_socket_addr(), format!("{:?}", c).len()))));
+    }
+    if let Ok((u, _)) = UdpDatagramView::try_from_slice(q) {
+        black_box(u.src_port());
+    }
+}
 fn read_scmp_msg(ctx: &mut Ctx, m: &ScmpMessageView<'_>) {
+    match m {
+        ScmpMessageView::DestinationUnreachable(v) => read_quote(ctx, v.offending_packet()),
+        ScmpMessageView::PacketTooBig(v) => read_quote(ctx, v.offending_packet()),
+        ScmpMessageView::ParameterProblem(v) => read_quote(ctx, v.offending_packet()),
+        ScmpMessageView::ExternalInterfaceDown(v) => read_quote(ctx, v.offending_packet()),
+        ScmpMessageView::InternalConnectivityDown(v) => read_quote(ctx, v.offending_packet()),
+        _ => {}
+    }
+    black_box(ScmpMessageExt::to_model(m).dst_port());
     match m {
         ScmpMessageView::DestinationUnreachable(v) => {
             black_box((v.message_type(), v.code(), v.checksum(), v.reserved()));
@@ -589,8 +629,16 @@ fn read_raw_pkt(ctx: &mut Ctx, r: &ScionRawPacketView) {
                 C::Other(_) => {}
             }
         }
+        if let Ok(cl) = r.try_classify() {
+            black_box(format!("{:?}", cl));
+        }
         if let Ok(m) = ScionRawPacket::try_from_view(r) {
-            let _ = black_box(m.try_classify());
+            if let Ok(cm) = black_box(m.try_classify()) {
+                black_box((cm.dst_socket_addr(), format!("{:?}", cm).len()));
+                let _ = black_box(cm.clone().try_into_udp().map(|u| u.dst_socket_addr().is_ok()));
+                let _ = black_box(cm.clone().try_into_scmp().map(|sm| sm.payload.dst_port()));
+                black_box(cm.into_raw().payload.len());
+            }
         }
     });
     let mut u_ok = false;
@@ -1004,6 +1052,36 @@ impl Xs {
     }
 }
 
+/// a VALID inner SCION packet (consistent length fields) for SCMP quotes: header as described, 12 bytes of
+/// upper layer (UDP with Length 12, or an SCMP echo request, or opaque bytes)
+fn inner_packet(qv: &Value, x: &mut Xs) -> Vec<u8> {
+    let (dn, sn, pt) = (g(qv, "dn") as u8, g(qv, "sn") as u8, g(qv, "pt") as u8);
+    let c = g(qv, "c") as usize;
+    let t = g(qv, "t") as usize;
+    let mut b: Vec<u8> = (0..t).map(|_| x.next()).collect();
+    b[0] = 0x05;
+    b[4] = g(qv, "nh") as u8;
+    b[5] = (c / 4) as u8;
+    b[6] = (g(qv, "pl") >> 8) as u8;
+    b[7] = g(qv, "pl") as u8;
+    b[8] = pt;
+    b[9] = (dn << 4) | sn;
+    let a = 28 + nib_len(dn) + nib_len(sn);
+    if pt == 1 {
+        let segs = g(qv, "s0") << 12;
+        b[a] = 0;
+        b[a + 1] = (segs >> 16) as u8 & 3;
+        b[a + 2] = (segs >> 8) as u8;
+        b[a + 3] = segs as u8;
+    }
+    if c + 6 <= t {
+        b[c] = 128; // SCMP echo request when the inner next header is SCMP
+        b[c + 4] = (g(qv, "ul") >> 8) as u8;
+        b[c + 5] = g(qv, "ul") as u8;
+    }
+    b
+}
+
 /// the byte string of a vector: fields of the vector where they fit, pseudo-random bytes elsewhere
 fn build(v: &Value, idx: u64) -> Vec<u8> {
     let len = g(v, "len") as usize;
@@ -1040,6 +1118,16 @@ fn build(v: &Value, idx: u64) -> Vec<u8> {
                 put(l4, g(v, "st") as u8);
                 put(l4 + 4, (g(v, "ul") >> 8) as u8);
                 put(l4 + 5, g(v, "ul") as u8);
+            }
+            // SCMP error quoting a valid inner SCION packet: the first q bytes of the inner packet follow the
+            // fixed part of the SCMP message
+            if let Some(qv) = v.get("quote") {
+                let fixed = match g(v, "st") { 5 => 20, 6 => 28, _ => 8 };
+                let inner = inner_packet(qv, &mut x);
+                let q = (g(qv, "q") as usize).min(inner.len());
+                for (i, byte) in inner[..q].iter().enumerate() {
+                    put(l4 + fixed + i, *byte);
+                }
             }
         }
         "stdpath" => {
@@ -1235,6 +1323,14 @@ fn run_vector(arena: &Arena, idx: u64, v: &Value, bytes: &[u8], thorough: bool) 
                     ScionScmpPacketView::try_from_slice(buf).map(|(v, _)| v.scmp().as_slice().len()).ok()
                 })) {
                     obs.insert("scmpm".into(), json!(x));
+                }
+                if v.get("quote").is_some() {
+                    if let Ok(Some(x)) = catch_unwind(AssertUnwindSafe(|| {
+                        let buf = arena.place(true, bytes);
+                        ScionScmpPacketView::try_from_slice(buf).map(|(v, _)| v.scmp().dst_port().is_some()).ok()
+                    })) {
+                        obs.insert("dport".into(), json!(x));
+                    }
                 }
             }
         }
